@@ -60,3 +60,43 @@ func AESNewCipher(key []byte) (cipher.Block, error) {
 	}
 	return a, nil
 }
+
+// CTR mode over any cipher.Block, written out (crypto/cipher's own CTR
+// dispatches into FIPS/assembly code for *aes.Block): key stream block j is
+// E(iv + j) with the 128-bit big-endian counter of the standard library.
+type ctrModel struct {
+	b    cipher.Block
+	ctr  [16]byte
+	out  [16]byte
+	used int
+}
+
+func (c *ctrModel) XORKeyStream(dst, src []byte) {
+	if len(dst) < len(src) {
+		panic("crypto/cipher: output smaller than input")
+	}
+	for i := range src {
+		if c.used == 16 {
+			c.b.Encrypt(c.out[:], c.ctr[:])
+			for k := 15; k >= 0; k-- {
+				c.ctr[k]++
+				if c.ctr[k] != 0 {
+					break
+				}
+			}
+			c.used = 0
+		}
+		dst[i] = src[i] ^ c.out[c.used]
+		c.used++
+	}
+}
+
+//verif:replace crypto/cipher.NewCTR
+func CipherNewCTR(block cipher.Block, iv []byte) cipher.Stream {
+	if len(iv) != block.BlockSize() {
+		panic("cipher.NewCTR: IV length must equal block size")
+	}
+	c := &ctrModel{b: block, used: 16}
+	copy(c.ctr[:], iv)
+	return c
+}
